@@ -2,6 +2,7 @@
    filesystem.  Property theorems only; proofs are in Proofs/TarProofs.v. *)
 From Apko Require Import Base.Prelude Model.Tar Spec.TarSpec Proofs.TarProofs Proofs.TarRoundtrip Proofs.TarOrder Proofs.TarLinks.
 From Apko Require Import Generated.C06Tar Model.TarBytes Spec.TarBytesSpec Proofs.TarBytesBlock Proofs.TarBytesProofs Proofs.TarBytesLayer Proofs.TarBytesFuel Proofs.TarBytesShape.
+From Apko Require Import Model.TarFaults Proofs.TarFaults.
 From Coq Require Import Sorting.Sorted.
 Open Scope string_scope. Open Scope list_scope.
 
@@ -311,3 +312,30 @@ Print Assumptions c06_bytes_reader_total.
 Theorem c06_bytes_pax_total : forall fuel s m, (List.length s < fuel)%nat -> parse_pax fuel s m <> OutOfFuel.
 Proof. exact parse_pax_fuel. Qed.
 Print Assumptions c06_bytes_pax_total.
+
+(* ======================================================================
+   Faults during serialisation (Model/TarFaults.v): the context is cancelled
+   before or during the walk, or the filesystem reports an error.  [walk_faulty]
+   is the model with the two facts goextract reads from the fs.WalkDir callback of
+   walkFS: c06_ctx_err_returned (the callback returns the error of a cancelled
+   context) and c06_root_err_checked (it tests the reported error before it skips
+   the root path).
+   ====================================================================== *)
+
+(* c06_fault_reported_partial — every fault except an error of the root
+   directory is reported to the consumer of walkFS (so writeTar fails and no
+   layer is handed out), or came after the last entry, in which case the walk is
+   complete.  Missing for the full statement: the root (c06_fault_root_refuted). *)
+Theorem c06_fault_reported_partial : forall ev f ft, ft <> FErrRoot ->
+  walk_faulty ev f ft = Err \/ walk_faulty ev f ft = Ok (walk ev f).
+Proof. exact fault_reported_or_complete. Qed.
+Print Assumptions c06_fault_reported_partial.
+
+(* c06_fault_root_refuted — an error of Stat(".") / ReadDir(".") is dropped: the
+   callback returns nil for the path "." before it looks at the error, the walk
+   ends with nothing yielded and no error, and the layer of a non-empty
+   filesystem is empty [finding C06-F6] *)
+Theorem c06_fault_root_refuted :
+  walk_faulty env_nohdr w_one FErrRoot = Ok [] /\ walk env_nohdr w_one <> [] /\ validate [] [] w_one [] <> [].
+Proof. exact fault_root_swallowed. Qed.
+Print Assumptions c06_fault_root_refuted.
